@@ -1060,6 +1060,22 @@ def lexers_check(fns, table):
                 report(f, ('takes-the-white-space-that-follows', '%s is built with no_ws(%s): the white space after the token is no longer part of it' % (wname, impl)), props=props_)
         else:
             undecided.append('%s: not of the form ws(%s)' % (wname, impl))
+    # ---- identifiers: [a-zA-Z_] then [a-zA-Z0-9_$]* (IEEE 5.6; C identifiers without `$`); the classes themselves: gvc.kwsites
+    for iname, second, props_ in (('simple_identifier_impl', 'AZ09_DOLLAR', ('C13', 'C04', 'C05', 'C11')), ('c_identifier_impl', 'AZ09_', ('C13',))):
+        f = table.get(iname)
+        if f is None or not f.ast:
+            undecided.append('%s not found (anchor lost)' % iname)
+            continue
+        st = _lexer_steps(f)
+        checked += 1
+        def cls(e):
+            return e[2][0][1] if (_is_call(e, 'is_a') and len(e[2]) == 1 and e[2][0][0] in ('var', 'path')) else None
+        if len(st) == 2 and cls(st[0]) and _is_call(st[1], 'opt') and cls(st[1][2][0]):
+            decided.add(iname)
+            if (cls(st[0]), cls(st[1][2][0])) != ('AZ_', second):
+                report(f, ('starts-with-a-letter-or-underscore-and-continues-with-the-full-class', 'the identifier is lexed as %s then %s instead of AZ_ then %s' % (cls(st[0]), cls(st[1][2][0]), second)), props=props_)
+        else:
+            undecided.append('%s: not of the form is_a(CLASS) opt(is_a(CLASS))' % iname)
     # ---- comment = one_line_comment | block_comment
     f = table.get('comment')
     if f is not None and f.ast:
